@@ -151,12 +151,52 @@ let clauses_adapter h (impl : string) : (string * bool) list =
         @ (if stack = "compact_replace" then [ ("normal", check_normal orc.o_on ops) ] else [])
         @ if stack = "replace" then [ ("ops_exact", check_ops_exact orc.o_on (n os) (n oe) (n ns) (n ne) ops) ] else []
 
+let clauses_iter h (impl : string) : (string * bool) list =
+  if impl = "PANIC" || impl = "TIMEOUT" then [ ("no_panic", false) ]
+  else
+    let ih = parse_impl impl in
+    let ops = calls_to_ops (parse_calls (get h "ops")) in
+    let old = parse_list (get h "old") and nw = parse_list (get h "new") in
+    let olda = Array.of_list old and newa = Array.of_list nw in
+    let lo k = at olda 0 k and ln k = at newa 0 k in
+    let fmt_change c =
+      Printf.sprintf "%s:%s:%s:%d" (Core_cases.fmt_ctag c.ch_tag) (Core_cases.fmt_opt c.ch_old)
+        (Core_cases.fmt_opt c.ch_new) c.ch_val
+    in
+    let j v = if v = [] then "-" else String.concat "," v in
+    let exp_changes = match expand_all lo ln ops with Some cs -> Some (j (List.map fmt_change cs)) | None -> None in
+    (* slices: per op, the values of its expansion grouped by tag (one group, two for Replace) *)
+    let exp_slices =
+      try
+        Some
+          (j
+             (List.concat_map
+                (fun op ->
+                  match expand_op lo ln op with
+                  | None -> raise Exit
+                  | Some cs ->
+                      let vals t = List.filter_map (fun c -> if c.ch_tag = t then Some (string_of_int c.ch_val) else None) cs in
+                      let one t = Printf.sprintf "%s:%s" (Core_cases.fmt_ctag t) (String.concat "." (vals t)) in
+                      (match op with
+                       | Equal _ -> [ one ChEqual ]
+                       | Delete _ -> [ one ChDelete ]
+                       | Insert _ -> [ one ChInsert ]
+                       | Replace _ -> [ one ChDelete; one ChInsert ]))
+                ops))
+      with Exit -> None
+    in
+    [ ("no_panic", true);
+      ("iter_spec", exp_changes = Some (get ih "changes"));
+      ("slices_spec", exp_slices = Some (get ih "slices"));
+      ("recap_id", get ih "recap" = fmt_ops ops) ]
+
 let clauses (line : string) (impl : string) : (string * bool) list =
   let comp, h = parse_kv line in
   match comp with
   | "raw" -> clauses_raw h impl
   | "capture" -> clauses_capture h impl
   | "adapter" -> clauses_adapter h impl
+  | "iter" -> clauses_iter h impl
   | _ -> Text_checks.clauses comp h impl
 
 let main (cases : string) (impl : string) : unit =
